@@ -19,10 +19,10 @@ RULE = ("random scripts for 2..N tasks over send/send_nowait/receive/receive_now
 def run(ctx: Ctx) -> Result:
     res = Result(rule=RULE)
     cases = [c for c in load_corpus(PROP)] + directed_cases()
-    n = ctx.n(500, 20000)
+    n = ctx.n(3000, 60000)
     cases += [gen_case(ctx.rng, ctx.tier, "close" if i % 4 else "deliver") for i in range(n)]
-    for i in range(0, len(cases), 400):
-        run_cases(PROP, cases[i: i + 400], res)
+    for i in range(0, len(cases), 1000):
+        run_cases(PROP, cases[i: i + 1000], res)
         if ctx.time_left() < 0:
             break
     return res
